@@ -79,12 +79,13 @@ func main() {
 	r := mon.Start("C07")
 	defer r.Finish()
 	r.SetRule("types: static family (generic API) + reflect.StructOf family with default= on the documented kinds, excluding a lone binary `request` field; per type: exact batch, column permutations (all when <=4 columns), every single-column deletion, extra columns (new / duplicate name; front / middle / end), each column's type perturbed to a castable and a non-castable neighbour, nullability flipped, names case-changed / padded, dictionary columns built by hand with 2..6 distinct entries and the selected entry at a random position (every second value keeps the single-entry builder form), null in every nullable column (one at a time and all at once), schema-level metadata added, wrapped-`request` shape (exact inner, perturbed inner, garbage, empty); each through pipe unary, pipe stream, HTTP unary, HTTP /init. One case = one (type, batch, dispatch path); distinct = distinct (type, perturbation, detail, path); trivial = none")
-	r.Assume("values are kept inside 1970..2262 / UTC midnight dates / non-pointer maps so that C08's range and *map findings do not show up here; for the wrapped-`request` shape the gate is applied to the INNER batch (the decoder documents that it accepts both shapes); a null in a nullable NON-pointer column without default= is only required to dispatch (the statement does not say what the field holds)")
+	r.Assume("the first value per type is kept tame (1970..2262, nil *map), the others use the full C08 value generator; for the wrapped-`request` shape the gate is applied to the INNER batch (the decoder documents that it accepts both shapes); a null in a nullable NON-pointer column without default= is only required to dispatch (the statement does not say what the field holds)")
 	r.Require("verdict:equal-dispatched", "verdict:mismatch-rejected", "pert:exact", "pert:permute", "pert:delete", "pert:extra", "pert:type-castable",
 		"pert:type-noncastable", "pert:nullability", "pert:rename", "pert:null", "pert:null-default", "pert:wrapped-exact", "pert:wrapped-perturbed",
 		"pert:wrapped-garbage", "pert:schema-metadata", "pert:nested-type", "arm:pipe-unary", "arm:pipe-stream", "arm:http-unary", "arm:http-init",
 		"family:static", "family:dynamic", "default:string", "default:int", "default:float", "default:bool", "default:pointer-form", "default:nullable-form",
-		"dict:multi-entry:non-first-selected", "dict:builder-single-entry")
+		"dict:multi-entry:non-first-selected", "dict:builder-single-entry",
+		"default:other-width-kind", "default:tagged-string", "default:unjudged", "values:full-range")
 
 	nDyn := r.N(70, 20000)
 	valuesPerType := r.N(2, 3)
@@ -112,7 +113,7 @@ func main() {
 	}
 	for i := 0; i < nDyn; i++ {
 		rng := r.Rand(1, uint64(i))
-		o := wc.TypeOpt{MaxFields: 1 + rng.IntN(7), MaxNest: rng.IntN(3), Defaults: true, NoPtrMap: true}
+		o := wc.TypeOpt{MaxFields: 1 + rng.IntN(7), MaxNest: rng.IntN(3), Defaults: true}
 		t := wc.GenStructType(rng, o)
 		ss, err := wc.Model(t)
 		if err != nil {
@@ -201,6 +202,11 @@ func runType(r *mon.Run, h http.Handler, pipeSrv *vgirpc.Server, ci int, tc *typ
 				r.Class("default:float")
 			case reflect.Bool:
 				r.Class("default:bool")
+			case reflect.Int8, reflect.Int16, reflect.Int32, reflect.Uint8, reflect.Uint16, reflect.Uint32, reflect.Uint64, reflect.Uint, reflect.Float32:
+				r.Class("default:other-width-kind")
+			}
+			if f.Spec.Arrow.ID() != arrow.STRING && f.Spec.Go.Kind() == reflect.String {
+				r.Class("default:tagged-string")
 			}
 			if f.Spec.Ptr {
 				r.Class("default:pointer-form")
@@ -211,7 +217,15 @@ func runType(r *mon.Run, h http.Handler, pipeSrv *vgirpc.Server, ci int, tc *typ
 	}
 	rng := r.Rand(2, uint64(ci))
 	for vi := 0; vi < valuesPerType; vi++ {
-		v := wc.GenStruct(rng, tc.ss, wc.ValOpt{Tame: true, NilPtrMap: true})
+		// The first value per type is tame; the others use the full value
+		// generator (range edges, instants over the whole wire range, non-nil
+		// *map fields) - the C08 repairs this used to wait for are in /repo.
+		vo := wc.ValOpt{Tame: true, NilPtrMap: true}
+		if vi > 0 {
+			vo = wc.ValOpt{}
+			r.Class("values:full-range")
+		}
+		v := wc.GenStruct(rng, tc.ss, vo)
 		data, err := vgirpc.VerifSerializeStruct(v.Interface())
 		if err != nil {
 			r.Fatal("harness could not build the exact batch for %s: %v", tc.name, err)
@@ -345,6 +359,26 @@ func runCase(r *mon.Run, h http.Handler, pipeSrv *vgirpc.Server, tc *typeCase, v
 			nullTag = fmt.Sprintf("null:%s:%s:%s", f.Spec.Go.Kind(), form, def)
 		}
 	}
+	// A declared default the harness has no reading for (bytes, text that does
+	// not parse for the kind): outcomes are counted, not judged.
+	for i, f := range tc.ss.Fields {
+		if nulled[i] && f.Default != nil {
+			if _, err := defaultValue(f); err != nil {
+				r.Class("default:unjudged")
+				outcome := "dispatched"
+				switch {
+				case o.Panicked != "":
+					outcome = "panic"
+				case len(o.Errors) > 0:
+					outcome = "answered-" + o.Errors[0].Type
+				}
+				r.Count("default_unjudged."+f.Spec.Go.Kind().String()+"."+outcome, 1)
+				if o.Panicked == "" {
+					return
+				}
+			}
+		}
+	}
 	label := p.kind
 	if nullTag != "" && p.inner != nil && wc.SchemaDiff(tc.ss.Schema, p.inner.Schema()) == "" {
 		label = nullTag
@@ -424,14 +458,20 @@ func defaultValue(f wc.FieldSpec) (reflect.Value, error) {
 	switch f.Spec.Go.Kind() {
 	case reflect.String:
 		out.SetString(s)
-	case reflect.Int, reflect.Int64:
-		n, err := strconv.ParseInt(s, 10, 64)
+	case reflect.Int, reflect.Int64, reflect.Int32, reflect.Int16, reflect.Int8:
+		n, err := strconv.ParseInt(s, 10, f.Spec.Go.Bits())
 		if err != nil {
 			return out, err
 		}
 		out.SetInt(n)
-	case reflect.Float64:
-		x, err := strconv.ParseFloat(s, 64)
+	case reflect.Uint, reflect.Uint64, reflect.Uint32, reflect.Uint16, reflect.Uint8:
+		n, err := strconv.ParseUint(s, 10, f.Spec.Go.Bits())
+		if err != nil {
+			return out, err
+		}
+		out.SetUint(n)
+	case reflect.Float64, reflect.Float32:
+		x, err := strconv.ParseFloat(s, f.Spec.Go.Bits())
 		if err != nil {
 			return out, err
 		}
